@@ -175,8 +175,24 @@ def cmd_round(rnd):
     print("round", rnd, "processed", len(names), "changes")
 
 
+def cmd_with(name, argv):
+    """Run a command with VERIF_REPO pointing at a scratch copy that has the seeded change applied."""
+    d, repo = scratch_repo()
+    try:
+        r = sh(["patch", "-p1", "-s", "-d", repo, "-i", os.path.join(SEEDED, name, "patch.diff")])
+        if r.returncode:
+            print("patch does not apply", r.stderr[-300:]); return
+        env = dict(os.environ, VERIF_REPO=repo, VERIF_OUT=os.path.join(d, "out"), VERIF_NO_SHRINK="1", PYTHONPATH=ROOT)
+        subprocess.run(argv, env=env, cwd=ROOT)
+    finally:
+        shutil.rmtree(d, ignore_errors=True)
+
+
 if __name__ == "__main__":
     c = sys.argv[1]
+    if c == "with":
+        cmd_with(sys.argv[2], sys.argv[sys.argv.index("--") + 1:])
+        sys.exit(0)
     if c == "round":
         cmd_round(int(sys.argv[2]))
     if c == "import":
